@@ -35,8 +35,8 @@ CHECKS["C01"] = ("bfs", "model_checking",
     "explicit-state BFS over renderer histories of the real TerminalRenderer against a VT screen model, differential vs from-scratch repaint",
     "A state is the real renderer (back buffer, marks, glyph cache read through hook H3) together with a reference VT screen that executed every "
     "command the renderer issued. Transitions: draw any surface of the grid and call frame; draw-and-reset without a frame; clear(); clear()+new(clear=true); "
-    "a frame whose commands are lost followed by clear(). For each of 12 (22) grids up to 2x3 / 1x7 / 4x2 (some taller than wide) the search runs over ALL surfaces built from up to 11 of 22 cell kinds "
-    "(narrow, wide, coloured, underlined blanks, four images incl. equal content in a different allocation and a two-row one, two tiles of one sprite sheet, two glyphs, one of them under two faces and once inside a frame, non-ASCII white space, an image under two faces, reverse-video blanks of two colours; "
+    "a frame whose commands are lost followed by clear(). For each of 13 (24) grids up to 2x3 / 1x7 / 4x2 (some taller than wide) the search runs over ALL surfaces built from up to 11 of 24 cell kinds "
+    "(narrow, wide, coloured, underlined blanks, four images incl. equal content in a different allocation and a two-row one, two tiles of one sprite sheet, two glyphs, one of them under two faces and once inside a frame, non-ASCII white space, an image under two faces, reverse-video blanks of two colours, bold and italic-on-red blanks in rows of six (seven) cells, long enough for the run-length erase; "
     "a glyph must show as the image its own rasterisation gives for that face and cell size) and continues to a fixpoint of the state graph; "
     "after every frame the screen must equal what a fresh renderer paints on a blank screen, the from-scratch screen must equal the direct reading of the surface when nothing overlaps, "
     "and no command may address a cell outside the grid or print in the pending-wrap column. The library's own render loop is driven too: every program of up to 3 handler calls (surface x Wait / WaitNoFrame / Sleep(0) x next event timeout / wake / resize / more than 32 frames pending) through Terminal::run_render on a scripted terminal (0.6 M programs); after every rendered frame the screen must equal a from-scratch repaint; a slice of both spaces runs once more under a tracing subscriber that evaluates every log line; a third space adds resizes that keep the grid and double the pixel size; every surface of a 2x4 grid with a tall and a three-cell-wide image is painted from scratch and no two placements may share a cell.",
@@ -175,7 +175,7 @@ CHECKS["C10"] = ("sweep", "exploration",
 CHECKS["C13"] = ("sweep", "exploration",
     "exhaustive small-image and small-palette sweeps against brute-force nearest-colour search",
     "All images of up to 4 (6) pixels over a 12-colour alphabet in every arrangement (crops of a poisoned border included), all multiset images with each colour 0..=2 times (so that the octree pruning loop is reached: it needs >= 9 distinct colours), subsampled periodic images, flat 1 x n images around the counts where a channel sum leaves the exact range of f32 (n = 65 788..65 812, 132 107, 197 381), all images of up to 4 pixels over three RGB values (black among them) x five alpha values, transposed images, images of 65 535 .. 67 584 distinct colours with 70 000 requested, "
-    "x requested sizes {1..10, 256} x dithering on/off x 2 (3) backgrounds (the alpha ladder over 5, two of them fully transparent; one- and two-pixel images once more with logging switched on): 15.8 M (414 M) quantisations; all palettes of 1-3 colours over a 4^3 lattice x 125 queries and 5 (8) structured palettes of 2..512 colours (xterm-256, clustered, all-equal, duplicates) (both public lookups, find and find_naive, at and around every entry) x ALL 2^24 queries against brute force. "
+    "x requested sizes {1..10, 256} x dithering on/off x 2 (3) backgrounds (the alpha ladder over 5, two of them fully transparent; one- and two-pixel images once more with logging switched on): 15.8 M (414 M) quantisations; all palettes of 1-3 colours over a 4^3 lattice, of 4 colours over a 3^3 lattice and of 5 colours over the 8 cube corners (ordered, 831 k palettes) x 125 queries and 5 (8) structured palettes of 2..512 colours (xterm-256, clustered, all-equal, duplicates) (both public lookups, find and find_naive, at and around every entry) x ALL 2^24 queries against brute force. "
     "Oracle: Some for non-empty images, 1 <= |palette| <= max(requested, 8), indices valid, without dithering each pixel maps to an entry at minimal squared RGB distance from the composited pixel, find is minimal for every query, exact reproduction when the distinct colours fit and the image is not subsampled; a watchdog turns a stuck pruning loop into a violation.",
     "Compositing of transparent pixels uses the rasterize crate's blend_over (assumed); which of several tied entries wins is not judged; palettes smaller than necessary are allowed by the statement (measured and reported as a lead).",
     "DESIGN.md §C13")
